@@ -1119,6 +1119,79 @@ theorem parseQueryText_missing_stmt (text : Str) (params : List (Str × BoundVal
   rw [hhead]
   simpa [Piece.tok, Piece.lit, tokstr] using this
 
+/-! ## `QueryLegal` from a decidable check
+
+With a non-empty gap in front of every piece but the first of each statement, legality of the whole
+query needs no context: inside a well-separated query a statement is followed by a gap or a `;` or
+the end of the input, which end every piece. -/
+
+theorem endOK_gap_semicolon (p : Piece) (g : Render.Gap) (k : Str) (hok : gapOK g = true) :
+    p.EndOK (gapText g ++ (';' :: k)) := by
+  cases g with
+  | nil => exact p.endOK_semicolon k
+  | cons i g' => exact p.endOK_gap (i :: g') _ (by simp) hok
+
+theorem endOK_gap_eof (p : Piece) (g : Render.Gap) (hok : gapOK g = true) :
+    p.EndOK (gapText g ++ [eofRune]) := by
+  cases g with
+  | nil => exact p.endOK_eof
+  | cons i g' => exact p.endOK_gap (i :: g') _ (by simp) hok
+
+theorem endOK_tailText (p : Piece) (gs : List Render.Gap) (g : Render.Gap) (hgs : ∀ h ∈ gs, gapOK h = true)
+    (hg : gapOK g = true) : p.EndOK (tailText gs g) := by
+  unfold tailText
+  cases gs with
+  | nil => exact endOK_gap_eof p g hg
+  | cons h gs' =>
+    have e : semisText (h :: gs') ++ (gapText g ++ [eofRune]) =
+        gapText h ++ (';' :: (semisText gs' ++ (gapText g ++ [eofRune]))) := by
+      simp only [semisText, List.append_assoc, List.cons_append]
+    rw [e]
+    exact endOK_gap_semicolon p h _ (hgs h (by simp))
+
+/-- The first piece after its gap, every further piece after a non-empty gap, all well formed. -/
+def SpacedStmt : List (Render.Gap × Piece) → Bool
+  | [] => false
+  | (g, p) :: l => gapOK g && p.ok && Spaced l
+
+/-- **Legality of a query, decidably.** Statements of proved families whose pieces are separated by
+non-empty gaps, well-formed separator gaps, every statement but the first behind a `;`. -/
+theorem queryLegal_of_spaced (gs : List Render.Gap) (g : Render.Gap) (hgs : ∀ h ∈ gs, gapOK h = true)
+    (hg : gapOK g = true) : ∀ (items : List Item) (semi : Bool), (∀ z ∈ items, z.2.OK) →
+      (∀ z ∈ items, (∀ h ∈ z.1, gapOK h = true) ∧ SpacedStmt z.2.pieces = true) → SepOK semi items →
+      QueryLegal items (tailText gs g) := by
+  intro items
+  induction items with
+  | nil => intro _ _ _ _; trivial
+  | cons it rest ih =>
+    obtain ⟨sem, x⟩ := it
+    intro semi hok hsp hsep
+    have hrest := ih false (fun z hz => hok z (by simp [hz])) (fun z hz => hsp z (by simp [hz])) hsep.2
+    obtain ⟨hsem, hx⟩ := hsp (sem, x) (by simp)
+    refine ⟨hsem, hok (sem, x) (by simp), ?_, hrest⟩
+    simp only at hx
+    cases hpc : x.pieces with
+    | nil => rw [hpc] at hx; cases hx
+    | cons gp l =>
+      obtain ⟨g0, p0⟩ := gp
+      rw [hpc] at hx
+      simp only [SpacedStmt, Bool.and_eq_true] at hx
+      refine legal_of_spaced g0 p0 l _ hx.1.1 hx.1.2 hx.2 ?_
+      intro q _
+      cases rest with
+      | nil => exact endOK_tailText q.2 gs g hgs hg
+      | cons it2 rest2 =>
+        obtain ⟨sem2, y⟩ := it2
+        obtain ⟨hne, _⟩ := hsep.2
+        cases sem2 with
+        | nil => simp at hne
+        | cons h hs' =>
+          have e : queryText ((h :: hs', y) :: rest2) (tailText gs g) =
+              gapText h ++ (';' :: (semisText hs' ++ (render y.pieces ++ queryText rest2 (tailText gs g)))) := by
+            simp only [queryText, semisText, List.append_assoc, List.cons_append]
+          rw [e]
+          exact endOK_gap_semicolon q.2 h _ (hrest.1 h (by simp))
+
 /-! ## two spelled statements for the non-vacuity examples of Props/C16 -/
 
 /-- `show databases` in lower case. -/
